@@ -1,27 +1,20 @@
 #!/bin/sh
 # usage: run_seed.sh <patch.diff> <tier> <Cxx> [<Cxx>...]
 # Applies a seeded change to a scratch worktree of /repo HEAD and runs the named checks against it
-# (VERIF_REPO), then removes the worktree. Evidence files are restored afterwards.
-P="$1"; T="$2"; shift 2
-W=/tmp/wt-seed-$$
+# (VERIF_REPO).  The checks run from a PRIVATE COPY of /verif (rsync, including its build caches), so
+# that the Gen/*.lean files regenerated from the modified tree, the evidence and the replays never touch
+# /verif itself (other work may be building there at the same time).  Worktree and copy are removed.
+P="$(readlink -f "$1")"; T="$2"; shift 2
+W=/var/tmp/wt-seed-$$
+V=/var/tmp/verif-seed-$$
 /verif/tools/mkworktree.sh "$W" >/dev/null 2>&1 || exit 2
 if ! git -C "$W" apply "$P"; then echo "PATCH DOES NOT APPLY"; git -C /repo worktree remove --force "$W"; exit 2; fi
-cd /verif
+rsync -a --exclude=.git --exclude=seeded --exclude='.build/run' /verif/ "$V"/
+cd "$V"
 for c in "$@"; do
-  cp evidence/$c.json /tmp/ev-$c-$$.json 2>/dev/null
   VERIF_REPO="$W" python3 check/check.py $c --tier $T 2>&1 | grep -E "^VIOLATION|^KNOWN|^BROKEN|tier=" | cut -c1-300
-  [ -f /tmp/ev-$c-$$.json ] && mv /tmp/ev-$c-$$.json evidence/$c.json
+  for r in $(ls replays 2>/dev/null); do [ -f /verif/replays/$r ] || { mkdir -p /var/tmp/seed-replays; cp replays/$r /var/tmp/seed-replays/; }; done
 done
+cd /
 git -C /repo worktree remove --force "$W"
-# the run regenerated lean/AdaptaVerif/Gen from the scratch tree: restore it from /repo
-python3 /verif/tools/cpp2lean/jobs.py >/dev/null 2>&1
-# ...and whatever else the properties' own regenerate hooks write
-for c in "$@"; do
-  python3 - "$c" <<'PY' >/dev/null 2>&1
-import sys, importlib
-from pathlib import Path
-sys.path.insert(0, "/verif/check")
-m = importlib.import_module("props." + sys.argv[1])
-if hasattr(m, "regenerate"): m.regenerate(Path("/verif"), Path("/repo"))
-PY
-done
+rm -rf "$V"
